@@ -52,6 +52,10 @@ def instances(tier, seed):
                     h = H[2]
                 add(fam.with_horizon(s, h), Cfg(method, N=N, M=M, intg=intg, grid=g))
                 n += 1
+    # deeper sub-stepping (a sub-step clock that is only wrong from the third step on must be seen)
+    for mi, (method, intg, M) in enumerate((('MS', 'rk', 3), ('SS', 'expl_euler', 4), ('MS', 'expl_euler', 3), ('SS', 'rk', 3))):
+        add(fam.with_horizon(core[mi % 2], H[(mi * 2 + 1) % len(H)]), Cfg(method, N=2, M=M, intg=intg, grid=[fam.G_UNI, fam.G_GEO_LOC][mi % 2]))
+    add(fam.with_horizon(dcore[0], H[1]), Cfg('MS', N=2, M=3, intg='rk', grid=fam.G_UNI))
     for s in dcore:
         for method in ('MS', 'SS'):
             h = H[n % len(H)]
